@@ -187,10 +187,10 @@ func C11data(p *load.Program, run *report.Run) {
 					found := false
 					for _, b := range send.Blocks {
 						if iff, ok := b.Instrs[len(b.Instrs)-1].(*ssa.If); ok {
-							if bo, ok := iff.Cond.(*ssa.BinOp); ok && bo.Op == token.GTR {
-								if l, ok := bo.X.(*ssa.Call); ok {
+							if big, small, strict, ok := ordCmpSSA(iff.Cond); ok && strict {
+								if l, ok := big.(*ssa.Call); ok {
 									if bi, ok := l.Call.Value.(*ssa.Builtin); ok && bi.Name() == "len" && l.Call.Args[0] == ssa.Value(cur) {
-										if k, ok := bo.Y.(*ssa.Const); ok && k.Int64() == 0 && b.Succs[1].Dominates(sb) {
+										if k, ok := small.(*ssa.Const); ok && k.Int64() == 0 && b.Succs[1].Dominates(sb) {
 											found = true
 										}
 									}
@@ -206,8 +206,17 @@ func C11data(p *load.Program, run *report.Run) {
 			flushed := false
 			for _, b := range send.Blocks {
 				if iff, ok := b.Instrs[len(b.Instrs)-1].(*ssa.If); ok && b.Dominates(cp.Block()) {
-					if bo, ok := iff.Cond.(*ssa.BinOp); ok && (bo.Op == token.GEQ || bo.Op == token.EQL) && isFieldLoad(bo.X, "WritePos") {
-						if l := linOf(bo.Y); l.ok && l.String() == "len(WriteBuf)" {
+					var wpX, wpY ssa.Value
+					if bo, ok := iff.Cond.(*ssa.BinOp); ok && bo.Op == token.EQL {
+						wpX, wpY = bo.X, bo.Y
+						if !isFieldLoad(wpX, "WritePos") {
+							wpX, wpY = wpY, wpX
+						}
+					} else if big, small, strict, ok := ordCmpSSA(iff.Cond); ok && !strict {
+						wpX, wpY = big, small
+					}
+					if wpX != nil && isFieldLoad(wpX, "WritePos") {
+						if l := linOf(wpY); l.ok && l.String() == "len(WriteBuf)" {
 							for _, ins := range b.Succs[0].Instrs {
 								if c, ok := ins.(*ssa.Call); ok && c.Call.StaticCallee() != nil && c.Call.StaticCallee().Name() == "Flush" {
 									flushed = true
@@ -428,4 +437,23 @@ func errNonNilReturns(c *ssa.Call) bool {
 		}
 	}
 	return false
+}
+
+// ordCmpSSA reads an ordered comparison in either direction: big > small (strict) or big >= small.
+func ordCmpSSA(v ssa.Value) (big, small ssa.Value, strict, ok bool) {
+	bo, isBin := v.(*ssa.BinOp)
+	if !isBin {
+		return nil, nil, false, false
+	}
+	switch bo.Op {
+	case token.GTR:
+		return bo.X, bo.Y, true, true
+	case token.GEQ:
+		return bo.X, bo.Y, false, true
+	case token.LSS:
+		return bo.Y, bo.X, true, true
+	case token.LEQ:
+		return bo.Y, bo.X, false, true
+	}
+	return nil, nil, false, false
 }
